@@ -74,6 +74,22 @@ Definition copy_parsed (bs : bytes) : res (bytes * N) :=
   | FinPanic => Panic
   end.
 
+(* every normal entry passed through NormalEntry::with_metadata (what strip / chmod / chown / migrate do) with the
+   given times and permission, then written: raw size and compressed size stay the entry's own *)
+Definition copy_with_metadata (bs : bytes) (c m a : option N) (p : option perm) : res (bytes * N) :=
+  do (es, f) <- entries read_chunk_stream bs;
+  match f with
+  | FinOk =>
+    let md := {| m_raw_size := Some 0; m_compressed := 0; m_ctime := c; m_mtime := m; m_atime := a; m_perm := p |} in
+    let raws := map (fun e => match e with
+                              | RNormal n => ser_normal (with_metadata n md)
+                              | RSolid s => ser_solid s
+                              end) es in
+    Ok (write_raw_archive 0 raws, fold_left (fun a e => a + snd (add_chunks e)) raws 0)
+  | FinErr e => Err e
+  | FinPanic => Panic
+  end.
+
 (* append (cli append.rs / lib archive.rs test `append`): open, seek_to_end, add the raw entries of a donor archive,
    finalize.  The underlying File / Cursor is written in place and never truncated: bytes of the old archive
    behind the new end marker stay *)
@@ -141,6 +157,13 @@ Definition run_archive (op : bytes) (args : list bytes) : bytes :=
     show_entries_res (entries (reader_arg (A_ 0%nat)) (firstn (N.to_nat (N_ 2%nat)) (H_ 1%nat)))
   else if bytes_eqb op (c_ "rawcopy") then show_copy (copy_raw (H_ 0%nat))
   else if bytes_eqb op (c_ "reser") then show_copy (copy_parsed (H_ 0%nat))
+  else if bytes_eqb op (c_ "withmeta") then
+    (* withmeta <archive> <ctime|-> <mtime|-> <atime|-> <mode|-> : permission = uid 1 "u" gid 2 "g" mode *)
+    let O_ i := if bytes_eqb (A_ i) (c_ "-") then None else undec (A_ i) in
+    show_copy (copy_with_metadata (H_ 0%nat) (O_ 1%nat) (O_ 2%nat) (O_ 3%nat)
+                 (match O_ 4%nat with
+                  | Some md => Some {| p_uid := 1; p_uname := c_ "u"; p_gid := 2; p_gname := c_ "g"; p_mode := md |}
+                  | None => None end))
   else if bytes_eqb op (c_ "reser2") then
     show_copy (do (b, _) <- copy_parsed (H_ 0%nat); copy_parsed b)
   else if bytes_eqb op (c_ "solid") then show_solids (entries read_chunk_stream (H_ 0%nat))
